@@ -64,7 +64,7 @@ func classifyHandOff(tb *Terms, sel *ssa.Select, ctxParam string) handOff {
 func (c *Ctx) ruleEmit(a *protoAnchors, rule string) {
 	p, r := c.P, c.R
 	T := a.traverse
-	paths := c.enum(rule, T, PathOpts{})
+	paths := c.enum(rule, T, PathOpts{Inline: inlineSmall()})
 	seenRow := map[string]bool{}
 	for _, pa := range paths {
 		if _, ok := pa.End.(*ssa.Return); !ok {
@@ -408,7 +408,7 @@ func (c *Ctx) ruleThresholds() {
 		if set == nil || get == nil {
 			continue
 		}
-		for _, pa := range c.enum(rule, set, PathOpts{}) {
+		for _, pa := range c.enum(rule, set, PathOpts{Inline: inlineSmall()}) {
 			if _, ok := pa.End.(*ssa.Return); !ok {
 				continue
 			}
@@ -470,7 +470,7 @@ func (c *Ctx) ruleThresholds() {
 				r.Und(rule, construct, p.InstrPos(pa.End), "path does not decide the sign of the value: "+p.PathSummary(pa))
 			}
 		}
-		for _, pa := range c.enum(rule, get, PathOpts{}) {
+		for _, pa := range c.enum(rule, get, PathOpts{Inline: inlineSmall()}) {
 			rv := pa.RetVals()
 			if len(rv) != 2 {
 				continue
@@ -567,7 +567,7 @@ func (c *Ctx) ruleGuard(a *protoAnchors) {
 			}
 		}
 	}
-	r.Floor(rule, 3)
+	r.Floor(rule, 1)
 }
 
 func isBlocking(in ssa.Instruction) (string, bool) {
@@ -850,6 +850,19 @@ func (c *Ctx) ruleInventory(a *protoAnchors) {
 	}
 	walk(a.send)
 	allowed := func(f *ssa.Function, in ssa.Instruction, what string) (bool, string) {
+		// a well-formed status hand-off (blocking select {<-ctx.Done(), statusChan <- s}) is a
+		// protocol site wherever it lives (C03.guard decides its shape)
+		if s, ok := in.(*ssa.Select); ok {
+			ctxParam := ""
+			for i, prm := range f.Params {
+				if typeShort(prm.Type()) == "context.Context" {
+					ctxParam = fmt.Sprintf("%d:%s", i, prm.Name())
+				}
+			}
+			if h := classifyHandOff(p.NewTerms(nil), s, ctxParam); h.ok {
+				return true, "status hand-off select (C03.guard)"
+			}
+		}
 		switch {
 		case f == a.send:
 			if ci, ok := in.(ssa.CallInstruction); ok {
